@@ -337,7 +337,9 @@ def execute(sc, mutant=None):
     LogQueue.world = w
     info = {'drift': 0, 'proj': [], 'executed': []}
     try:
-        rd.set_retries_before_disconnect(sc['retries'])
+        if sc['retries'] is not None:
+            rd.set_retries_before_disconnect(sc['retries'])
+        retries = rd._nr_of_retries          # the configured number (default of the module when not set)
         rng = random.Random(sc.get('seed', 0))
         policy = vsched.RandomPolicy(rng) if sc.get('free') and sc['free'].get('policy') == 'random' \
             else vsched.FifoPolicy()
@@ -367,7 +369,7 @@ def execute(sc, mutant=None):
         rd.RadioManager._radios = []
         if undo:
             undo()
-    tr = {'mode': sc['mode'], 'tail': list(sc['tail']), 'deny': list(sc['deny']), 'retries': sc['retries'],
+    tr = {'mode': sc['mode'], 'tail': list(sc['tail']), 'deny': list(sc['deny']), 'retries': retries,
           'negatt': NEGATT, 'ev': w.ev, 'fin': {'quiet': bool(quiet), 'inq': inq, 'st': final_st,
                                                'dead': [t.get('traceback', '')[-400:] for t in dead]}}
     return tr, info
@@ -394,11 +396,12 @@ def _run_steps(w, s, sc, info):
             if not state['subq']:
                 return
             p = state['subq'].pop(0)
-            ok = w.drv.send_packet(make_packet(p))
+            pk = make_packet(p)
+            ok = w.drv.send_packet(pk)
             if ok:
                 w.nsub += 1
                 w.tail_acked = 0
-                w.log({'e': 'sub', 'p': pk_bytes(make_packet(p))})
+                w.log({'e': 'sub', 'p': pk_bytes(pk)})
             else:
                 w.log({'e': 'rej', 'p': list(p)})
 
@@ -490,11 +493,12 @@ def _spawn_free(w, s, sc):
         def body(plan=plan, sem=sem):
             for (_at, p) in plan:
                 sem.acquire()
-                ok = w.drv.send_packet(make_packet(p))
+                pk = make_packet(p)
+                ok = w.drv.send_packet(pk)
                 if ok:
                     w.nsub += 1
                     w.tail_acked = 0
-                    w.log({'e': 'sub', 'p': pk_bytes(make_packet(p))})
+                    w.log({'e': 'sub', 'p': pk_bytes(pk)})
                 else:
                     w.log({'e': 'rej', 'p': list(p)})
             w.senders_left -= 1
@@ -781,6 +785,23 @@ def startup_scenarios(tier, rng):
     return out
 
 
+def count_scenarios(tier):
+    """The configured count exactly: N-1 losses then an ack (no report), N losses (one report at
+    the N-th), N+3 losses (still one report), alternating U/L; N = 1, 2, 3, 5, 17 and the
+    default 100 (retries None = set_retries_before_disconnect is not called)."""
+    out = []
+    for n in (1, 2, 3, 5, 17, None):
+        k = n or 100
+        for kinds in ('U', 'L', 'UL'):
+            def run(m):
+                return ''.join(kinds[i % len(kinds)] for i in range(m))
+            word = run(k - 1) + 'A' + run(k) + 'AA' + run(k + 3) + 'A' + run(k - 1) + 'A' + run(1) + 'A'
+            for pat in ('eager', 'late'):
+                out.append({'mode': 'sl', 'tail': [1, 44], 'deny': DENY_REPLIES[0], 'retries': n,
+                            'gen': ['word', 'LA', word, pat, 4, 4]})
+    return out
+
+
 def random_scenarios(tier, rng):
     """Random beyond: long runs (200-2000 transmissions), random loss processes, several sending
     threads, random submission/queueing times, seeded random thread schedule."""
@@ -922,7 +943,15 @@ def judge(out, traces, label, count=True):
             continue
         per = (len(group) + common.NCPU - 1) // common.NCPU
         chunk = max(1, per) if group is long_ else max(200, min(1500, per))
-        v, st = common.validate_traces('SafelinkTrace.tla', 'TRACE_Safelink.cfg', group, chunk=chunk, timeout=3000)
+        try:
+            v, st = common.validate_traces('SafelinkTrace.tla', 'TRACE_Safelink.cfg', group, chunk=chunk, timeout=3000)
+        except (tlc.TLCError, common.MachineryError) as e:
+            # a crashed TLC batch (seen once on a badly overloaded machine) is re-run once in smaller
+            # batches; verdicts only ever come from completed TLC runs, a second failure is fatal
+            import sys
+            print('C01: trace batch failed (%s...), retrying once' % str(e)[:160].replace('\n', ' '), file=sys.stderr)
+            v, st = common.validate_traces('SafelinkTrace.tla', 'TRACE_Safelink.cfg', group,
+                                           chunk=max(1, chunk // 2), timeout=3000)
         verdicts.update(v)
         for k in tot:
             tot[k] += st[k]
@@ -978,7 +1007,10 @@ def expect_temporal_violation(spec, cfg, **kw):
         r = tlc.run(spec, cfg, **kw)
     except tlc.TLCError as e:
         import re
-        m = re.search(r'Temporal property (\w+) was violated', str(e))
+        # TLC exit status 13 = liveness violation; the wording "Temporal property X was violated"
+        # is at the head of an output of which TLCError keeps only the tail (lasso "Back to state")
+        m = re.search(r'Temporal property (\w+) was violated', str(e)) or \
+            (re.search(r'\(rc=(13)\)', str(e)) if 'Back to state' in str(e) or 'Stuttering' in str(e) else None)
         if not m:
             raise
         r = tlc.Result()
@@ -990,6 +1022,37 @@ def expect_temporal_violation(spec, cfg, **kw):
     if r.ok or not r.violated:
         raise tlc.TLCError('liveness bug configuration %s/%s was NOT refuted' % (spec, cfg))
     return r
+
+
+def apalache_stretch():
+    """Stretch goal, not load-bearing: Apalache proves IndInv of spec/SafelinkAB.tla inductive
+    (alternating-bit core with unbounded counters => exactly-once/in-order for ANY number of
+    transmissions).  Returns a dict for the evidence file; never raises."""
+    import os
+    import shutil
+    import subprocess
+    exe = '/opt/veriftools/apalache/bin/apalache-mc'
+    spec = os.path.join(tlc.SPEC_DIR, 'SafelinkAB.tla')
+    if not os.path.exists(exe):
+        return {'status': 'apalache not installed'}
+    d = tlc.scratch_dir('apalache-')
+    res = {}
+    try:
+        for key, args in (('Init=>IndInv', ['--init=Init', '--inv=IndInv', '--length=0']),
+                          ('IndInv/\\Next=>IndInv\'', ['--init=IndInv', '--inv=IndInv', '--length=1'])):
+            try:
+                p = subprocess.run([exe, 'check'] + args + ['--out-dir=' + d, '--run-dir=' + d, spec], cwd=d,
+                                   stdout=subprocess.PIPE, stderr=subprocess.STDOUT, text=True, timeout=600)
+                m = [ln for ln in p.stdout.splitlines() if 'The outcome is' in ln]
+                res[key] = (m[0].split('The outcome is:')[1].split()[0] if m else 'rc=%d' % p.returncode)
+            except subprocess.TimeoutExpired:
+                res[key] = 'timeout'
+            except Exception as e:      # noqa
+                res[key] = 'failed to run: %s' % e
+    finally:
+        shutil.rmtree(d, ignore_errors=True)
+    res['status'] = 'inductive' if all(v == 'NoError' for k, v in res.items()) else 'not established'
+    return res
 
 
 def _tlc_jobs(jobs):
@@ -1058,11 +1121,12 @@ def main(tier, seed, replay=None):
     if replay:
         rp = json.load(open(replay))['replay']
         _init()
+        mut = rp.get('mutant')        # self-test of the reporting path only: replay under an in-memory mutant
         if 'links' in rp['scenario']:
-            trs = execute_multi(rp['scenario'])
+            trs = execute_multi(rp['scenario'], mut)
             pre = 'multi:'
         else:
-            trs = [execute(materialize(rp['scenario']))[0]]
+            trs = [execute(materialize(rp['scenario']), mut)[0]]
             pre = ''
         bad, _d, _n = judge(out, trs, 'replay')
         for (i, clause, at) in bad:
@@ -1082,7 +1146,9 @@ def main(tier, seed, replay=None):
     for b in BUGS:
         jobs.append(('bug:' + b, tlc.expect_violation, ('MC_Safelink.tla', 'MC_Safelink_bug_%s.cfg' % b),
                      dict(workers=2, timeout=1500)))
+    jobs.append(('apalache', apalache_stretch, (), {}))
     res = _tlc_jobs(jobs)
+    out.extra['apalache_inductive_invariant(SafelinkAB.tla, stretch, not load-bearing)'] = res.pop('apalache')
     for k, r in res.items():
         if k.startswith('bug:'):
             out.sensitivity['spec:' + k[4:]] = 'refuted (%s) after %d states' % (r.violated, r.distinct)
@@ -1127,7 +1193,8 @@ def main(tier, seed, replay=None):
     # 3. code -> spec: exhaustive outcome words x submission patterns, start-up enumeration, random beyond
     words = word_scenarios(tier)
     starts = startup_scenarios(tier, rng)
-    check_blocks(out, words + starts, 'outcome words + start-up', stats)
+    counts = count_scenarios(tier)
+    check_blocks(out, words + starts + counts, 'outcome words + start-up + exact counts', stats)
     nwords = len(words)
     rnd = random_scenarios(tier, rng)
     st_r = new_stats()
@@ -1162,10 +1229,10 @@ def main(tier, seed, replay=None):
     out.rule = ('scenario = (peer kind, start-up outcome word, main-loop outcome word over {A,U,L}, submission pattern, '
                 'retries); ALL main-loop words of length <= %d (a word is followed by an all-A drain, so shorter words '
                 'ending in A are subsumed) at patterns eager/late%s [%d traces]; ALL start-up loss patterns (2^j, j<=10%s) '
-                'x peer kinds [%d]; %d TLC -simulate behaviours replayed; %d seeded random runs of 200-%d transmissions with '
+                'x peer kinds [%d]; %d exact-count scenarios (N = 1, 2, 3, 5, 17, default 100); %d TLC -simulate behaviours replayed; %d seeded random runs of 200-%d transmissions with '
                 'random thread schedules; %d runs with 2-3 links multiplexed over one dongle; link errors occurred in %d traces; '
                 '%d transmissions in total' %
-                (k, '/mid', nwords, ', sampled above 64 per j in quick' if tier == 'quick' else '', len(starts), len(sims),
+                (k, '/mid', nwords, ', sampled above 64 per j in quick' if tier == 'quick' else '', len(starts), len(counts), len(sims),
                  len(rnd), 600 if tier == 'quick' else 2000, len(duals), stats['errors'], stats['tx']))
     out.samples = stats['samples'][:6]
     out.extra['transmissions'] = stats['tx']
